@@ -18,6 +18,13 @@ Proof.
   - apply wrapper_close_S; auto.
   - apply do_tick_S; auto.
   - apply run_all_S; auto.
+  - eapply invS_same; eauto.
+  - unfold do_advance. apply do_tick_S. unfold do_retry_fire.
+    pose proof (do_tick_S H pl expected fs0 s HI) as H1.
+    destruct (negb (s_retry (do_tick s))); [assumption|].
+    destruct (is_checking (set_retry (do_tick s) false)).
+    + apply queue_S. eapply invS_same; eauto.
+    + eapply invS_same; eauto.
 Qed.
 
 Lemma run_S fs0 ops : forall s, invS H pl expected fs0 s -> invS H pl expected fs0 (run H pl expected ops s).
